@@ -58,6 +58,7 @@ fn main() {
     }
     // panics inside the store are observations, not noise
     std::panic::set_hook(Box::new(|info| {
+        *runner::LAST_PANIC.lock().unwrap() = format!("{info}");
         if std::env::var("SIMCHECK_PANIC_VERBOSE").is_ok() {
             eprintln!("panic: {info}");
         }
